@@ -34,7 +34,7 @@ CHECKS = {
                 text="Export/import round trip of compiled circuits, templates with repeated/constant/input outputs and seeded gate lists: same non-panic outputs for all inputs; exported text well-formed (counts, single assignment before use, outputs last in order, de-aliased repeats), also when the target path already holds an older, longer export; input-wire outputs refused.",
                 note="Scoped: 'importing ANY text never panics' is not claimed (File/BufReader + text; not encodable within reach).", ref="DESIGN.md section 4, C11"),
     "C12": dict(level="translation_validation", tech=TV + "; constants computed by the generator in wrapping arithmetic of the declared type; miter against the real compilation of the textually substituted twin",
-                text="Programs with const declarations (external values, earlier consts, nested min/max/+/-, all primitive types) used as values, array sizes, repeat sizes and party counts: compile_with_constants(P, c) equals the substitution semantics for all inputs (value, panic-iff, location) and the compiled twin P[c]; withheld/mistyped constants give errors naming them, never a panic.",
+                text="Programs with const declarations (external values, earlier consts, nested min/max/+/-, all primitive types) used as values, array sizes, repeat sizes and party counts: compile_with_constants(P, c) equals the substitution semantics for all inputs (value, panic-iff, location) and the compiled twin P[c]; withheld/mistyped constants give errors naming them, never a panic. The literal-level argument API (Evaluator::parse_literal + run) is only compared natively, on one all-zero literal per parameter, between P with constants and its twin - a differential run, not a solver query.",
                 note="Constant assignments are seeded boundary values; parameter / type sizes 1..4 (zero-sized parameters belong to C05); repeat-literal sizes 0..3 as local arrays.", ref="DESIGN.md section 4, C12"),
     "C13": dict(level="translation_validation", tech=TV + "; all array elements symbolic under the sortedness precondition; relational specification for join(), nested-loop reference for for-join; sorting networks through the hook",
                 text="For every size pair (n, m) up to the bound and several key/payload shapes: for-join loop effects and panics equal the nested-loop join in ascending key order for ALL strictly ascending arrays; join() output satisfies length, zero-padding, sorted flags, flagged = matching elements, no key twice, every common key present (also with duplicate keys within one side); the same for arrays that are fully or partly compile-time constants (the builder folds the networks on constant wires). Bitonic sorter networks (hook) sort and permute for all inputs.",
